@@ -6,12 +6,15 @@ import (
 	"fmt"
 	"os"
 	"runtime"
+	"runtime/debug"
+	"runtime/pprof"
 	"sort"
 	"strings"
 	"time"
 )
 
 func main() {
+	debug.SetGCPercent(800)
 	if len(os.Args) < 2 {
 		fmt.Fprintln(os.Stderr, "usage: symgo run|check|replay ...")
 		os.Exit(2)
@@ -41,7 +44,13 @@ func cmdRun(args []string) {
 	timeout := fs.Duration("timeout", 10*time.Minute, "per-harness timeout")
 	solver := fs.String("solver", "z3 -in", "solver command")
 	verbose := fs.Bool("v", false, "verbose")
+	prof := fs.String("cpuprofile", "", "write cpu profile")
 	fs.Parse(args)
+	if *prof != "" {
+		f, _ := os.Create(*prof)
+		pprof.StartCPUProfile(f)
+		defer pprof.StopCPUProfile()
+	}
 	t0 := time.Now()
 	e, err := LoadEngine(*repo, *hdir, strings.Split(*pkgs, ","))
 	if err != nil {
